@@ -3,15 +3,14 @@
    after /repo commits 6a12257 "fix: make re-registered paths available again in the data manager" and 8b8c381
    "fix: invalidate the whole subtree of a path in the data manager").
 
-   What is NOT proved here (see design/notes/C21.md): the full "exactly when" characterisation of availability
-   by the history as one refinement theorem (C21_refines_partial of the design).  What is proved is that the last
-   event decides on its own footprint (registration: the path and its ancestors become available; invalidation:
-   the path and everything beneath become unavailable), that an invalidation changes nothing for other locations,
-   and that registrations/relations remove nothing; the frame of a registration and the same-location frame of an
-   invalidation (which fails in the presence of same-location relations: related copies share their fate) are
-   only exercised by the correspondence + oracle. *)
+   What is only PARTIALLY proved (see design/notes/C21.md): the "exactly when" characterisation of availability by
+   the history is proved as a refinement of a history-based specification on the domain of registrations (on
+   locations that wrap no other location) and invalidations (C21_refines_partial); with relations and wrapped
+   locations the pointwise theorems below hold (registration footprint, invalidation footprint, isolation,
+   monotonicity) but the exact characterisation is only exercised by the correspondence + oracle, and is known to be
+   false for duplicate objects (C21_invalidated_copy_reported_refuted). *)
 From Coq Require Import List Bool Arith.
-From SF Require Import Base.Str Base.Corr DataReg.Model DataReg.Proofs DataReg.Rereg DataReg.Inval.
+From SF Require Import Base.Str Base.Corr DataReg.Model DataReg.Proofs DataReg.Rereg DataReg.Inval DataReg.Refine.
 Import ListNotations.
 Local Open Scope string_scope. Local Open Scope list_scope.
 
@@ -74,6 +73,37 @@ Theorem C21_invalidate_monotone : forall s key p r,
   not_invalid s r = false -> not_invalid (fst (invalidate s key p)) r = false.
 Proof. exact invalidate_mono. Qed.
 
+(* "a path is reported as available on a location exactly when it (or, for ancestor directories, a path beneath it)
+   was registered there ... and has not been invalidated since": for every location table without wrapping, every
+   history (any length, any depth, any number of locations; repeated registrations included) made of registrations
+   with a type other than INVALID and of invalidations of paths that have a node (the others raise KeyError and
+   change nothing), availability in the model equals the history-based specification [avail_spec] ...
+   PARTIAL: relations and wrapped locations are outside this domain. *)
+Theorem C21_refines_partial : forall tab h,
+  nowrap tab -> Forall d1_op h -> inv_ok tab h ->
+  forall K q, available (rs (run tab h)) q K = avail_spec tab h K q.
+Proof. exact refines. Qed.
+(* ... where the specification says: some registration, on that location, of the path or of a path beneath it is
+   not followed by an invalidation, on that location, of the path or of one of its ancestors *)
+Theorem C21_spec_meaning : forall tab h K q,
+  avail_spec tab h K q = true <->
+  exists h1 l p t h2, h = h1 ++ Reg l p t :: h2 /\ key_of tab l = K /\ beneath q p = true /\
+                      forall l' x, In (Inv l' x) h2 -> key_of tab l' = K -> beneath x q = false.
+Proof. exact avail_spec_iff. Qed.
+Example C21_refines_hypotheses :
+  let tab := [mkloc ("d1", "n1") false None []; mkloc ("d2", "n1") false None []] in
+  let h := [Reg 0 ["a"; "x"] PRIMARY; Reg 1 ["a"] PRIMARY; Inv 0 ["a"]; Reg 0 ["a"; "y"] SYMBOLIC_LINK] in
+  nowrap tab /\ Forall d1_op h /\ inv_ok tab h /\
+  avail_spec tab h ("d1", "n1") ["a"] = true /\ avail_spec tab h ("d1", "n1") ["a"; "x"] = false /\
+  avail_spec tab h ("d2", "n1") ["a"] = true /\ available (rs (run tab h)) ["a"; "x"] ("d1", "n1") = false.
+Proof.
+  split; [apply nowrap_intro; intros l [<-|[<-|[]]]; reflexivity|].
+  split; [repeat constructor; discriminate|].
+  split; [|vm_compute; repeat split; reflexivity].
+  intros h1 l x h2 E.
+  destruct h1 as [|o1 [|o2 [|o3 [|o4 [|o5 h1]]]]]; simpl in E; inversion E; subst; vm_compute; discriminate.
+Qed.
+
 (* The text's "available exactly when ... not invalidated since" is still FALSE of the faithful model (known
    finding reports-invalidated/dupreg): register /a/a twice (register_path hands out a second object for the same
    copy, which the tree does not hold under /a/a), register /z, relate(/z, second object), invalidate /a/a —
@@ -122,3 +152,5 @@ Print Assumptions C21_invalidated_copy_reported_refuted.
 Print Assumptions C21_invalidate_subtree.
 Print Assumptions C21_isolation.
 Print Assumptions C21_invalidate_monotone.
+Print Assumptions C21_refines_partial.
+Print Assumptions C21_spec_meaning.
